@@ -68,6 +68,14 @@ def gen_cases(tier, seed):
         for sp in ("#%d" % v, "x%X" % v, "0x%x" % v, "%d" % v) + (("#-%d" % (65536 - v),) if v >= 32768 else ()):
             cases.append(asmgen.asm_case(0, [(1, f".orig x0\na add r0 r0 #1\n.blkw {sp}\nb .fill xBEEF\n")])); tags.append("blkw-extreme")
             cases.append(asmgen.asm_case(0, [(1, f".orig x0\n.fill {sp}\nhalt\n")])); tags.append("fill-extreme")
+    # labels that differ ONLY in letter case are different labels: three definitions and a reference to each, in EVERY order
+    # of the six statements (a reference resolved while only some of the twins are known must still find its own label)
+    import itertools as _it
+    parts = [("d", "Loop"), ("d", "loop"), ("d", "LOOP"), ("r", "Loop"), ("r", "loop"), ("r", "LOOP")]
+    for k, perm in enumerate(_it.permutations(parts)):
+        ref = ("br", "ld r1", "lea r2", "jsr", "st r3", "sti r4")[k % 6]
+        text = "".join((f"{nm} add r0 r0 #1\n" if kind == "d" else f"{ref} {nm}\n") for kind, nm in perm)
+        cases.append(asmgen.asm_case(0, [(1, text)])); tags.append("case-twins")
     # EXHAUSTIVE operand sweep: every operand combination of every form without a label operand, and every literal
     # offset of every PC-relative form (one source per form; the i-th word must be the encoding of the i-th statement)
     for feat, text in operand_sweep():
@@ -95,7 +103,7 @@ def correspondence(ctx, violations, known_hits):
     ctx.cleanup()
     return {
         "evaluations": r["evaluations"] + cli["compiles"], "real_binary_compile": cli, "operand_sweep_outcomes": sweep, "distinct_nontrivial": len(r["sigs"]),
-        "rule": "EXHAUSTIVE operand sweep (every register/immediate/offset6/trap-vector combination of every form without a label operand; every literal offset of every 9-/10-/11-bit PC-relative form: 50k statements); random valid programs over the whole instruction/trap/directive set (labels before/after/on the use, "
+        "rule": "case-twin labels (Loop / loop / LOOP) defined and referenced in all 720 orders; EXHAUSTIVE operand sweep (every register/immediate/offset6/trap-vector combination of every form without a label operand; every literal offset of every 9-/10-/11-bit PC-relative form: 50k statements); random valid programs over the whole instruction/trap/directive set (labels before/after/on the use, "
                 "literal PC offsets at the field extremes, origins at the 16-bit boundaries, .break placements), each rendered "
                 "in several random layouts (keyword case, r/R, #dec/#unsigned/xHEX/0xHEX/x-HEX/leading zeros/+, "
                 "spaces/tabs/commas/colons/CRLF/FF, comments incl. abutting and multi-byte) plus all-commas, all-colons, "
